@@ -248,6 +248,9 @@ def run_pty(rep: Report, session: termsim.PtySession, scn: dict, bursts: list) -
 
 
 def main(rep: Report, replay: dict | None) -> None:
+    import gc
+
+    gc.disable()  # tens of thousands of acyclic trace records: a full collection stalls for seconds
     rep.assumptions += ASSUMPTIONS
     rep.rule = (
         "MC_Tty: ops {colors, namever, cellsize, kitty} x supported-subsets x ST/BEL x partitions of the reply stream "
@@ -366,6 +369,7 @@ def main(rep: Report, replay: dict | None) -> None:
                            "bursts": [[(d, list(x)) for d, x in bb] for bb in bursts]})
             rep.distinct.add(("pty", scn["op"], json.dumps(scn["term"], sort_keys=True), json.dumps(scn["win"])))
     finally:
+        rep.extra["pty_stalls_retried"] = getattr(session, "stalls", 0)
         session.close()
     rep.extra["pty_runs"] = n_pty
     lap("pty")
